@@ -255,7 +255,9 @@ def asDateTime (k : Kind) (s : List Char) : TRes DT :=
       match strptime k (padMain k text) with
       | none => .error .liberr
       | some (y, m, d, h, mi, sec) =>
+        -- `dt.replace(microsecond=ms)`: a C int argument, then the range test
         if 0 ≤ ms ∧ ms < 1000000 then .ok ⟨y, m, d, h, mi, sec, ms.toNat, tz⟩
+        else if ms < -2147483648 ∨ 2147483647 < ms then .error (.leak "OverflowError")
         else .error (.leak "ValueError")
 
 /-! ### CER/DER canonicaliser (`TimeEncoderMixIn.encodeValue`) -/
